@@ -227,6 +227,17 @@ def clear_agree(ctx, rr):
             rebound = {s.name for s in stores if s.name and s.name.endswith('.file')}
             ok = len(opens) == 2 and all(m == "'wb+'" for m in modes) and len(rebound) == 2
             what = 'file: both files are reopened truncated ("wb+") and both storages are pointed to the new files'
+            # the handles close() will close are the new ones: the attributes __init__ bound to open() are bound again
+            init_ = P.method('Traph', '__init__')
+            handle_attrs = {'self.' + self_attr_name(t) for a in P.own(init_, ast.Assign) if isinstance(a.value, ast.Call) and isinstance(a.value.func, ast.Name)
+                            and a.value.func.id == 'open' for t in a.targets if self_attr_name(t)}
+            kept = handle_attrs - {s.name for s in stores if s.name}
+            if ok and handle_attrs and kept and (mem, 'handles') not in seen:
+                seen.add((mem, 'handles'))
+                rr.ob(ctx.where(u), 'clear() binds the new handles to the attributes close() closes (%s)' % sorted(handle_attrs), ok=False)
+                rr.fail(ctx.finding('R-CLEAR-AGREE', u, opens[0].node, 'clear() reopens the files but leaves %s pointing at the old handles: close() then closes the old ones only, the blocks '
+                                    'buffered in the new handles never reach the disk (and a second clear flushes stale content into the fresh files)' % sorted(kept),
+                                    stmt='clear keeps old handles'))
         if (mem, 'reset') not in seen:
             rr.ob(ctx.where(u), what, ok=ok)
             seen.add((mem, 'reset'))
@@ -247,8 +258,9 @@ def clear_agree(ctx, rr):
                 seen.add('reg')
             if not ok:
                 rr.fail(ctx.finding('R-CLEAR-AGREE', u, g.node, 'rules given to clear() are not written into the emptied trie'))
-            if first_idx(r, lambda e: e is g) < max(first_idx(r, lambda e, c=c: e is c) for c in ctors):
-                rr.fail(ctx.finding('R-CLEAR-AGREE', u, g.node, 'rules are registered before the structures were rebuilt'))
+            if not ctors or first_idx(r, lambda e: e is g) < max(first_idx(r, lambda e, c=c: e is c) for c in ctors):
+                rr.fail(ctx.finding('R-CLEAR-AGREE', u, g.node, 'rules are registered before the structures were rebuilt: they are written through the discarded trie object into the '
+                                    'emptied store (no header block yet), so the first rule lands where the header belongs', stmt='clear registers before rebuild'))
     # the old handles are closed (flushed) before the files are truncated: a buffered write flushed afterwards lands in the new file
     for r in rows:
         opens = r.calls('open')
@@ -910,6 +922,16 @@ def page_report(ctx, rr):
     for r, e in bad:
         rr.fail(ctx.finding('R-PAGE-REPORT', tp, e.node if e is not None else tp.node, 'the write report does not count exactly the pages that were new',
                             detail={'row': r.show()[:400]}))
+    # ... and the report that was counted into is the report handed back, on every path
+    rnames = {a.target.value.id for a in P.own(tp, ast.AugAssign) if isinstance(a.target, ast.Attribute) and a.target.attr == 'nb_created_pages' and isinstance(a.target.value, ast.Name)}
+    rets = [x for x in P.own(tp, ast.Return) if isinstance(x.value, ast.Tuple) and len(x.value.elts) == 2]
+    if len(rnames) == 1 and rets:
+        R_ = list(rnames)[0]
+        other = [x for x in rets if not (isinstance(x.value.elts[1], ast.Name) and x.value.elts[1].id == R_)]
+        rr.ob(ctx.where(tp), '__add_page hands back the report it counted the page into (`%s`) on each of its %d returns' % (R_, len(rets)), ok=not other)
+        for x in other[:1]:
+            rr.fail(ctx.finding('R-PAGE-REPORT', tp, x, '__add_page returns `%s` instead of the report `%s` it counted the new page into: a page created on this path is indexed but not '
+                                'reported as created' % (ast.unparse(x.value.elts[1])[:40], R_)))
     # TraphWriteReport.__iadd__ sums the counters
     ia = P.method('TraphWriteReport', '__iadd__')
     ok = any(isinstance(a, ast.AugAssign) and isinstance(a.op, ast.Add) and 'nb_created_pages' in ast.unparse(a.target) and 'nb_created_pages' in ast.unparse(a.value)
